@@ -172,12 +172,21 @@ def render(toks, rng, plain=False, inject=None, tail=""):
     salt = "".join(rng.choice("bcdfghjkmnpqrstvwxz") for _ in range(3))
     words, out = {}, []
     prev_word = False
+    raw_open = None          # the raw-text element (script / style) the parser is inside of, as far as the spelling knows
     for i, (k, n) in enumerate(toks, start=1):
         word = None
         if k in "TACD":
             word = {"T": "w", "A": "w", "C": "h", "D": "d"}[k] + str(i) + "y" + salt + tail
             words[word] = i
-        if k == "T":
+        if k == "S" and raw_open is None and n in ("script", "style"):
+            raw_open = n
+        elif k == "E" and raw_open == n:
+            raw_open = None
+        if k == "T" and raw_open and not plain and i >= 2 and tuple(toks[i - 2]) == ("S", raw_open) and rng.random() < 0.5:
+            # text of a script / style element that opens with the legacy "hide from old browsers" marker and never closes
+            # it: inside a raw-text element "<!--" is DATA, not a comment (HtmlSkip: the element ends at its end tag)
+            s = "<!--" + word
+        elif k == "T":
             s = word
         elif k == "A":
             s = word + " R&D"
@@ -809,15 +818,16 @@ def run(ctx):
     # ---- 1. theorem + sensitivity
     if ctx.thorough:
         theorem = [("AlphaQ1", 5), ("AlphaQ2", 5), ("AlphaQ3", 7), ("AlphaQ4", 6), ("AlphaQ5B", 6), ("AlphaQ6", 5),
-                   ("AlphaQ7", 6), ("AlphaQ8", 6), ("AlphaT3", 5), ("AlphaT", 5), ("AlphaT2", 5)]
+                   ("AlphaQ7", 6), ("AlphaQ8", 6), ("AlphaQ9", 7), ("AlphaT3", 5), ("AlphaT", 5), ("AlphaT2", 5)]
         gens = [("AlphaT", 4, 0), ("AlphaT2", 4, 0), ("AlphaQ3", 6, 0), ("AlphaQ4", 5, 0), ("AlphaQ5", 5, 0),
-                ("AlphaQ6", 4, 0), ("AlphaQ7", 6, 0), ("AlphaQ8", 5, 0), ("AlphaT3", 4, 0), ("AlphaQ1", 5, 5), ("AlphaQ2", 5, 5)]
+                ("AlphaQ6", 4, 0), ("AlphaQ7", 6, 0), ("AlphaQ8", 5, 0), ("AlphaT3", 4, 0), ("AlphaQ1", 5, 5), ("AlphaQ2", 5, 5),
+                ("AlphaQ9", 7, 0)]
         sample5, n_eml, n_msgfile = 25000, 4000, 800
     else:
         theorem = [("AlphaQ1", 4), ("AlphaQ2", 4), ("AlphaQ4", 5), ("AlphaQ5B", 5), ("AlphaQ6", 4),
-                   ("AlphaQ7", 5), ("AlphaQ8", 5)]
+                   ("AlphaQ7", 5), ("AlphaQ8", 5), ("AlphaQ9", 6)]
         gens = [("AlphaQ1", 4, 0), ("AlphaQ2", 4, 0), ("AlphaQ4", 5, 0), ("AlphaQ5", 4, 0), ("AlphaQ6", 3, 0),
-                ("AlphaQ7", 5, 0), ("AlphaQ8", 5, 0)]
+                ("AlphaQ7", 5, 0), ("AlphaQ8", 5, 0), ("AlphaQ9", 6, 0)]
         sample5, n_eml, n_msgfile = 0, 1200, 160
     if os.environ.get("C17_ONLY"):                         # development aid: "AlphaT3:4,AlphaQ8:5" restricts both lists
         gens = [(a, int(n), 0) for a, n in (x.split(":") for x in os.environ["C17_ONLY"].split(","))]
@@ -880,6 +890,13 @@ def run(ctx):
     for w in ("html", "msg", "mhtml_b64", "mhtml_qp", "epub", "eml"):
         if not by_w.get(w):
             raise MachineryError(f"no observation recorded for wrapper {w}")
+    ctx.log(f"{sum(1 for e in events if '<!--w' in e['html'])} observations spell the text of a script / style element "
+            f"with a comment opener (data there)")
+    if os.environ.get("C17_DEBUG"):
+        sus = [e for e in events if '<!--w' in e['html'] and e['w'].startswith('mhtml')]
+        ctx.log(f"DEBUG mhtml with opener: {len(sus)}; trees: {sorted({json.dumps(e['tree'])[:60] for e in sus})[:5]}")
+        for e in sus[:8]:
+            ctx.log("DEBUG " + json.dumps([e['w'], e['seen'], [t['k'] + t['n'] for t in e['toks']], e['html'][-90:]]))
     traces = _build_traces(events)
     if os.environ.get("C17_MODEL"):                        # self-test of the algorithm part, not a verdict
         _model_agreement(ctx, traces, os.environ["C17_MODEL"])
